@@ -332,7 +332,6 @@ func runC14(c *Ctx) {
 	}
 }
 
-
 func c14SafeNew(f string) (tf []string, err error, panicked string) {
 	defer func() {
 		if r := recover(); r != nil {
